@@ -203,7 +203,12 @@ fn mechanism(files: &[FFile]) -> &'static str {
 }
 
 fn hostile_case(sub: &str, jail: &Jail, shapes: &[&Shape], stripped: bool, dest: u8, rank: u64, acc: &mut Acc) {
-    let mut files: Vec<FFile> = shapes.iter().map(|s| materialise(s, jail)).collect();
+    let files: Vec<FFile> = shapes.iter().map(|s| materialise(s, jail)).collect();
+
+    hostile_files(sub, jail, files, stripped, dest, rank, acc)
+}
+
+fn hostile_files(sub: &str, jail: &Jail, mut files: Vec<FFile>, stripped: bool, dest: u8, rank: u64, acc: &mut Acc) {
     // regular entries carry contents of different lengths, the earlier the longer (two entries of one path: the result must be
     // one of the two contents, not a mixture)
     const CONTENTS: [&[u8]; 3] = [b"FIRST-ENTRY-WITH-THE-LONGEST-CONTENT", b"second entry", b"3rd"];
@@ -212,10 +217,6 @@ fn hostile_case(sub: &str, jail: &Jail, shapes: &[&Shape], stripped: bool, dest:
             f.content = CONTENTS[k.min(2)].to_vec();
         }
     }
-    hostile_files(sub, jail, files, stripped, dest, rank, acc)
-}
-
-fn hostile_files(sub: &str, jail: &Jail, files: Vec<FFile>, stripped: bool, dest: u8, rank: u64, acc: &mut Acc) {
     acc.evals += 1;
     jail.reset();
     let order: Vec<usize> = (0..files.len()).collect();
